@@ -110,7 +110,9 @@ def _only_inlist_substring_envs(s: dict, l: int, clause: str) -> bool:
 def nf_reason(t: dict) -> str:
     """Why a shape tree is not in normal form (first reason found, depth first)."""
     if t["k"] in ("eqgroup", "negroup"):
-        return "" if t["n"] >= 2 else f"{t['k']}-with-{t['n']}-values"
+        if t["n"] < 2:
+            return f"{t['k']}-with-{t['n']}-values"
+        return "" if t.get("nd", t["n"]) == t["n"] else f"{t['k']}-with-repeated-value"
     if t["k"] in ("and", "or"):
         if len(t["ch"]) < 2:
             return f"{t['k']}-with-{len(t['ch'])}-child"
@@ -519,6 +521,68 @@ def glue_mc(rep: Report, thorough: bool) -> None:
     rep.count("glue_merge_decision_drift", drift)
 
 
+# --------------------------------------------------------------------------- C07: every atom of MarkerSemantics round-trips
+def _atom_roundtrip_chunk(args):
+    states, envs = args
+    from packaging.markers import Marker as PkgMarker
+    from dep_logic.markers import parse_marker
+    from . import check_markersem as ms
+    fails, n = [], 0
+    for st in states:
+        a = st["item"]["a"]
+        text = ms.atom_text(a)
+        ctx_name = "lock_file" if a["kind"] == "member" else "metadata"
+        n += 1
+        site = f"{a['kind']},{a.get('var', 'extra')},{a['op']},{'literal-left' if a.get('rev') else 'literal-right'}"
+        try:
+            m = parse_marker(text)
+            out = str(m)
+            back = parse_marker(out)
+            PkgMarker(out)
+        except Exception as e:  # noqa: BLE001
+            fails.append((f"C07:atom-b1({site}):raises-{type(e).__name__}", f"{text!r}: {e!r}", {"kind": "atom-roundtrip", "text": text}))
+            continue
+        for i, env in enumerate(envs):
+            e = dict(env)
+            if ctx_name == "lock_file":
+                e.pop("extra", None)
+                e["extras"] = set(env["extras"])
+            else:
+                e.pop("extras", None)
+            want = bool(st["table"][i])
+            got = bool(back.evaluate(dict(e), context=ctx_name))
+            if got != want:
+                fails.append((f"C07:atom-b1({site}):reparsed-evaluates-differently",
+                              f"{text!r} renders as {out!r}, which evaluates {got} where the atom is {want} (python {e['python_full_version']}, os_name {e['os_name']!r})",
+                              {"kind": "atom-roundtrip", "text": text, "rendered": out}))
+                break
+    return n, fails
+
+
+def atom_roundtrip(rep: Report) -> None:
+    """Every atom of the MarkerSemantics alphabet - BOTH operand orders, also for in / not in - is parsed, rendered
+    and re-parsed in ONE process (so both orientations of the same atom meet), and the re-parsed marker is
+    evaluated against the specification's table."""
+    from . import check_markersem as ms
+    envs, states = ms._tlc(rep, "AtomsSpec", ["ReflectionSound"])
+    vecs = [s for s in states if s["phase"] == "evaluated"]
+    envs_small = envs[:: max(1, len(envs) // 120)]
+    idx = list(range(0, len(envs), max(1, len(envs) // 120)))
+    for v in vecs:
+        v["table"] = [v["table"][i] for i in idx]
+    size = max(1, len(vecs) // 16)
+    total = 0
+    # one process per chunk, but each chunk holds atoms AND their mirrored spellings: sort by (var, op-reflection-class, literal)
+    vecs.sort(key=lambda v: (v["item"]["a"]["kind"], str(v["item"]["a"].get("var")), str(v["item"]["a"].get("rel", v["item"]["a"].get("lit", v["item"]["a"].get("name")))), v["item"]["a"]["op"]))
+    with mp.Pool(8) as pool:
+        for n, fails in pool.map(_atom_roundtrip_chunk, [(vecs[i:i + size], envs_small) for i in range(0, len(vecs), size)]):
+            total += n
+            for (sig, detail, vec) in fails:
+                rep.violation(sig, detail, vec)
+    rep.add("traces_validated_against_impl", total)
+    rep.count("atoms_roundtripped", total)
+
+
 def normal_form_mc(rep: Report, pid: str, thorough: bool) -> None:
     """TLC on MarkerNormalForm (the transcribed rewriting engine) + replay of every transition."""
     if pid == "C12":
@@ -573,6 +637,8 @@ def run(pid: str, tier: str, replay: str | None = None) -> int:
         return _replay(rep, replay)
     if pid in ("C02", "C15", "C12"):
         normal_form_mc(rep, pid, thorough)
+    if pid == "C07":
+        atom_roundtrip(rep)
     if pid == "C02":
         glue_mc(rep, thorough)
     if pid in ("C02", "C15"):
